@@ -314,15 +314,20 @@ func runC09(tier string, seed uint64) {
 		o    SessOpts
 		host string // "", "host", "bases"
 	}
-	cfgs := []cfgT{{"default", SessOpts{}, ""}, {"auto", SessOpts{Auto: true}, ""}, {"nover", SessOpts{NoVer: true}, ""}, {"host", SessOpts{}, "host"}, {"failpage", SessOpts{FailPage: true}, ""}}
+	cfgs := []cfgT{{"default", SessOpts{}, ""}, {"auto", SessOpts{Auto: true}, ""}, {"nover", SessOpts{NoVer: true}, ""}, {"host", SessOpts{}, "host"}, {"failpage", SessOpts{FailPage: true}, ""},
+		// a server with a host-bucket base, addressed path-style (hosts that are not <bucket>.<base> fall back)
+		{"bases", SessOpts{}, "bases"}}
 	for _, kind := range allKinds {
 		for ci, cfg := range cfgs {
-			if kind != "mem" && ci > 1 && tier != "thorough" {
+			if kind != "mem" && ci > 1 && tier != "thorough" && !(cfg.host == "bases" && kind == "fsmem") {
 				continue
 			}
 			s := newSess("c09", kind, cfg.o)
 			if cfg.host == "host" {
 				s.h = newServer(s.st.Backend, gofakes3.WithHostBucket(true))
+			}
+			if cfg.host == "bases" && s.st.Ext == nil {
+				s.h = newServer(s.st.Backend, gofakes3.WithHostBucketBase("s3.example.com", "other.test"))
 			}
 			emit("c09", "NOMODEL")
 			f := &fuzzCtx{rng: rng, buckets: []string{singleBucketName, "bkq"}, keys: []string{"k", "d/e", "gone", "marked", "kv"}}
@@ -333,11 +338,11 @@ func runC09(tier string, seed uint64) {
 				return ""
 			}
 			// reachable state: objects, versions with a delete marker, a pending upload with parts
-			if !isSingle(kind) && cfg.host == "" {
+			if !isSingle(kind) && cfg.host != "host" {
 				s.MkBucket(singleBucketName)
 				s.MkBucket("bkq")
 			}
-			if cfg.host == "" {
+			if cfg.host != "host" {
 				s.Put(singleBucketName, "k", []byte("0123456789"), nil)
 				s.Put(singleBucketName, "d/e", []byte("nested"), []KV{{"X-Amz-Meta-A", "b"}})
 				if kind == "mem" && !cfg.o.NoVer {
@@ -380,7 +385,7 @@ func runC09(tier string, seed uint64) {
 				}
 			}
 			// keys that begin with what a listing may name as its delimiter (opaque-key backends only)
-			if (kind == "mem" || kind == "bolt") && cfg.host == "" {
+			if (kind == "mem" || kind == "bolt") && cfg.host != "host" {
 				for _, dk := range []string{"/lead", "//x/y", "-a", "-a-b", "bq", "b"} {
 					s.Put(singleBucketName, dk, []byte("delim-key"), nil)
 				}
@@ -396,7 +401,7 @@ func runC09(tier string, seed uint64) {
 			}
 			// a pending upload whose bucket is deleted (it holds no object) before the upload is completed,
 			// listed, continued and aborted; bystanders on the other bucket and the bucket's re-creation follow
-			if !isSingle(kind) && cfg.host == "" {
+			if !isSingle(kind) && cfg.host != "host" {
 				if id := s.Initiate("bkq", "orphan", nil); id != "" {
 					et := s.UploadPart("bkq", "orphan", id, 1, []byte("orphaned part"))
 					done := "<CompleteMultipartUpload><Part><PartNumber>1</PartNumber><ETag>" + xmlEsc(et) + "</ETag></Part></CompleteMultipartUpload>"
@@ -444,6 +449,15 @@ func runC09(tier string, seed uint64) {
 			for n := 0; n <= 5; n++ {
 				for _, extra := range []string{"", "&prefix=m", "&delimiter=%2F", "&prefix=m&delimiter=%2F", "&key-marker=ma", "&key-marker=mp", "&prefix=mz%2F"} {
 					corpus = append(corpus, Req{Method: "GET", Path: "/" + singleBucketName + "?uploads&max-uploads=" + strconv.Itoa(n) + extra})
+				}
+			}
+			if kind != "mem" || cfg.o.NoVer {
+				// versioning documents that say nothing about the status (what GET ?versioning answers for a
+				// bucket that never had versioning, sent back), on servers whose backend has no versioning
+				for _, vb := range []string{"<VersioningConfiguration/>", "<VersioningConfiguration><MfaDelete>Disabled</MfaDelete></VersioningConfiguration>",
+					`<VersioningConfiguration xmlns="http://s3.amazonaws.com/doc/2006-03-01/"></VersioningConfiguration>`, "<VersioningConfiguration><Other>1</Other></VersioningConfiguration>",
+					"<VersioningConfiguration><MfaDelete>Enabled</MfaDelete></VersioningConfiguration>"} {
+					corpus = append(corpus, Req{Method: "PUT", Path: "/" + singleBucketName + "?versioning", Body: []byte(vb)})
 				}
 			}
 			for _, v := range append([]string{"3/none"}, f.vids...) {
@@ -496,7 +510,7 @@ func runC09(tier string, seed uint64) {
 						Req{Method: "GET", Path: "/" + singleBucketName + "?versions"})
 				}
 			}
-			if cfg.host != "" {
+			if cfg.host == "host" {
 				corpus = nil
 			}
 			canaryN := 0
@@ -525,7 +539,7 @@ func runC09(tier string, seed uint64) {
 					break
 				}
 				// canary: the server still answers correct requests, on another and on the same bucket
-				if i >= 0 && i%25 == 24 && cfg.host == "" {
+				if i >= 0 && i%25 == 24 && cfg.host != "host" {
 					canaryN++
 					emit("c09", "E")
 					c09Canary(s, kind, cfg.o, canaryN)
@@ -561,6 +575,13 @@ func c09Canary(s *Sess, kind string, o SessOpts, n int) {
 		s.List(ListReq{Bucket: b, Delim: "/", MaxKeys: -1})
 		s.Delete(b, "c/k")
 		s.Get(b, "c/k", "")
+		// a multipart upload from start to finish
+		if uid := s.Initiate(b, "c/mp", []KV{{"X-Amz-Meta-C", "mp"}}); uid != "" {
+			et := s.UploadPart(b, "c/mp", uid, 1, body)
+			s.Complete(b, "c/mp", uid, []CPart{{1, et}})
+			s.Get(b, "c/mp", "")
+			s.Delete(b, "c/mp")
+		}
 		s.RmBucket(b)
 		s.Get(b, "c/k", "")
 		emit("c09", "E")
